@@ -337,3 +337,92 @@ Proof.
   rewrite (min_mono p mn _ xs Emn Hf), (max_mono p mx _ xs Emx Hf).
   apply map3_stoch_affine. exact Hc.
 Qed.
+
+(* ---- TrueRange / ATR / KeltnerChannel on scalars: exact real forms and their covariance ---- *)
+Fixpoint tr_real (prev : R) (xs : list R) : list R :=
+  match xs with [] => [] | x :: xs => Rabs (x - prev) :: tr_real x xs end.
+Definition tr_stream (xs : list R) : list R := match xs with [] => [] | x :: xs => 0 :: tr_real x xs end.
+
+Lemma tr_outs_running : forall xs prev, tr_outs O (mkTr (Some (Fin prev))) (map Fin xs) = map Fin (tr_real prev xs).
+Proof.
+  induction xs as [|x xs IH]; intros prev; [reflexivity|]. cbn [map tr_outs tr_real]. unfold tr_next.
+  cbn [tr_prev_close]. xfin. f_equal. apply IH.
+Qed.
+Theorem tr_exact : forall xs, tr_outs O tr_new (map Fin xs) = map Fin (tr_stream xs).
+Proof.
+  intros [|x xs]; [reflexivity|]. cbn [map tr_outs tr_stream]. unfold tr_next, tr_new. cbn [tr_prev_close]. xfin.
+  f_equal. apply tr_outs_running.
+Qed.
+Theorem atr_exact : forall p a xs, atr_new O p = Ok a ->
+  atr_outs O a (map Fin xs) = map Fin (ema_stream (kreal p) (tr_stream xs)).
+Proof.
+  intros p a xs H. unfold atr_new in H. destruct (ema_new O p) as [e| |] eqn:Ee; cbn in H; try discriminate. injection H as <-.
+  rewrite atr_wiring, tr_exact. apply (ema_outs_xr p e _ Ee).
+Qed.
+
+Lemma tr_real_scale c prev xs : tr_real (c * prev) (map (Rmult c) xs) = map (Rmult (Rabs c)) (tr_real prev xs).
+Proof.
+  revert prev; induction xs as [|x xs IH]; intros prev; [reflexivity|]. cbn [map tr_real]. rewrite IH. f_equal.
+  replace (c * x - c * prev) with (c * (x - prev)) by lra. apply Rabs_mult.
+Qed.
+Theorem tr_scale : forall c xs, tr_stream (map (Rmult c) xs) = map (Rmult (Rabs c)) (tr_stream xs).
+Proof. intros c [|x xs]; [reflexivity|]. cbn [map tr_stream]. rewrite tr_real_scale. f_equal. lra. Qed.
+Lemma tr_real_shift d prev xs : tr_real (d + prev) (map (Rplus d) xs) = tr_real prev xs.
+Proof.
+  revert prev; induction xs as [|x xs IH]; intros prev; [reflexivity|]. cbn [map tr_real]. rewrite IH. f_equal. f_equal. lra.
+Qed.
+Theorem tr_shift : forall d xs, tr_stream (map (Rplus d) xs) = tr_stream xs.
+Proof. intros d [|x xs]; [reflexivity|]. cbn [map tr_stream]. rewrite tr_real_shift. reflexivity. Qed.
+
+Theorem atr_scale : forall k c xs, 0 <= c ->
+  ema_stream k (tr_stream (map (Rmult c) xs)) = map (Rmult c) (ema_stream k (tr_stream xs)).
+Proof. intros k c xs Hc. rewrite tr_scale, (Rabs_pos_eq c Hc). apply ema_stream_scale. Qed.
+Theorem atr_shift : forall k d xs, ema_stream k (tr_stream (map (Rplus d) xs)) = ema_stream k (tr_stream xs).
+Proof. intros k d xs. now rewrite tr_shift. Qed.
+
+(* KeltnerChannel on scalars: [EMA; EMA + m*ATR; EMA - m*ATR] *)
+Definition kc_real (k m : R) (xs : list R) : list (list R) :=
+  map2 (fun av at_ => [av; av + at_ * m; av - at_ * m]) (ema_stream k xs) (ema_stream k (tr_stream xs)).
+
+Lemma map2_bands m a b :
+  map2 (bands O (Fin m)) (map Fin a) (map Fin b) = map (map Fin) (map2 (fun av at_ => [av; av + at_ * m; av - at_ * m]) a b).
+Proof. revert b; induction a as [|x a IH]; intros [|y b]; cbn [map map2]; try reflexivity. rewrite IH. reflexivity. Qed.
+
+Theorem kc_exact : forall p m s xs, kc_new O p (Fin m) = Ok s ->
+  kc_outs O s (map Fin xs) = map (map Fin) (kc_real (kreal p) m xs).
+Proof.
+  intros p m s xs H. unfold kc_new in H.
+  destruct (atr_new O p) as [a| |] eqn:Ea; cbn in H; try discriminate.
+  destruct (ema_new O p) as [e| |] eqn:Ee; cbn in H; try discriminate. injection H as <-.
+  rewrite kc_wiring, (ema_outs_xr p e xs Ee), (atr_exact p a xs Ea). apply map2_bands.
+Qed.
+
+Theorem kc_scale : forall k m c xs, 0 <= c -> kc_real k m (map (Rmult c) xs) = map (map (Rmult c)) (kc_real k m xs).
+Proof.
+  intros k m c xs Hc. unfold kc_real. rewrite ema_stream_scale, atr_scale by exact Hc.
+  rewrite map2_map_l, map2_map_r, map_map2. apply map2_ext. intros x y. cbn [map].
+  replace (c * (x + y * m)) with (c * x + c * y * m) by ring. replace (c * (x - y * m)) with (c * x - c * y * m) by ring. reflexivity.
+Qed.
+Theorem kc_shift : forall k m d xs,
+  kc_real k m (map (Rplus d) xs) = map (map (Rplus d)) (kc_real k m xs).
+Proof.
+  intros k m d xs. unfold kc_real. rewrite ema_stream_shift, atr_shift.
+  rewrite map2_map_l, map_map2. apply map2_ext. intros x y. cbn [map].
+  replace (d + (x + y * m)) with (d + x + y * m) by ring. replace (d + (x - y * m)) with (d + x - y * m) by ring. reflexivity.
+Qed.
+
+(* ---- BollingerBands: all three levels scale with c >= 0 and shift with d ---- *)
+Theorem bb_scale : forall p mu hh c, 0 <= c ->
+  XSd.bb_spec p mu (map (Rmult c) hh) = map (fun o => mul O (Fin c) o) (XSd.bb_spec p mu hh).
+Proof.
+  intros p mu hh c Hc. unfold XSd.bb_spec. rewrite lastn_map, mean_scale, pvar_scale.
+  rewrite sqrt_mult_alt by nra. rewrite sqrt_square by exact Hc. cbn [map]. xfin. set (a := mean _). set (b := R_sqrt.sqrt _).
+  replace (c * (a + b * mu)) with (c * a + c * b * mu) by ring. replace (c * (a - b * mu)) with (c * a - c * b * mu) by ring. reflexivity.
+Qed.
+Theorem bb_shift : forall p mu hh d, lastn p hh <> [] ->
+  XSd.bb_spec p mu (map (Rplus d) hh) = map (fun o => add O (Fin d) o) (XSd.bb_spec p mu hh).
+Proof.
+  intros p mu hh d Hn. unfold XSd.bb_spec. rewrite lastn_map, mean_shift, pvar_shift by exact Hn.
+  cbn [map]. xfin. set (a := mean _). set (b := R_sqrt.sqrt _).
+  replace (d + (a + b * mu)) with (d + a + b * mu) by ring. replace (d + (a - b * mu)) with (d + a - b * mu) by ring. reflexivity.
+Qed.
